@@ -49,6 +49,16 @@ pub fn with_timeout<T: Send + 'static>(secs: u64, f: impl FnOnce() -> T + Send +
     rx.recv_timeout(Duration::from_secs(secs)).ok()
 }
 
+/// Which end-of-data search `content::inline_image` of the tree under test uses: `"lf"` = `seek_substr("\nEI")`
+/// (model `inlineImage`), `"ei"` = white-space followed by the token `EI` (repo commit 4386f8d of the C08
+/// follow-up, model `inlineImageEI`). One of the two mirrors the code; set it when that commit is merged.
+const INLINE_SEARCH: &str = "lf";
+
+/// (the environment variable C01_INLINE_SEARCH overrides the constant: for trying a tree before it is merged)
+fn inline_search() -> String {
+    std::env::var("C01_INLINE_SEARCH").unwrap_or_else(|_| INLINE_SEARCH.to_string())
+}
+
 fn guard(f: impl FnOnce() -> String) -> String {
     catch_unwind(AssertUnwindSafe(f)).unwrap_or_else(|_| "panic".into())
 }
@@ -146,7 +156,7 @@ fn both_c01(req: &str, model: &str) -> (String, String) {
         }
         "c01.inline" => {
             // model: `ok <a> <b> <p>` (image data buf[a..b], lexer at p) | `fail <p>` (inline_image returned Err)
-            let buf = bytes(1);
+            let buf = bytes(2);
             let m: Vec<&str> = model.split(' ').collect();
             if m.len() == 4 && m[0] == "ok" {
                 let (a, b, p): (usize, usize, usize) = (m[1].parse().unwrap_or(0), m[2].parse().unwrap_or(0), m[3].parse().unwrap_or(0));
@@ -626,9 +636,9 @@ fn inline_stream(run: &mut Runner, seed: u64, n: u64) -> Stream {
         for _ in 0..rng.usize(12) {
             match rng.below(5) { 0 => buf.extend_from_slice(b"\nEI"), 1 => buf.push(rng.byte()), 2 => buf.extend_from_slice(b"EI"), 3 => buf.push(b'\n'), _ => buf.push(*rng.pick(b"Ax \r0Q")) }
         }
-        if rng.chance(3, 4) { buf.extend_from_slice(*rng.pick(&[&b"\nEI"[..], b"\nEI Q", b"\nEI\n", b" EI", b"\nEI q BI /W 1 /H 1 ID y\nEI Q"])); }
+        if rng.chance(3, 4) { buf.extend_from_slice(*rng.pick(&[&b"\nEI"[..], b"\nEI Q", b"\nEI\n", b" EI", b"\rEI ", b"\nEIx", b"\nEI/", b"\nEI q BI /W 1 /H 1 ID y\nEI Q"])); }
         st.count(&format!("terminated={}", buf.windows(3).any(|w| w == b"\nEI")));
-        reqs.push(format!("c01.inline {} {}", hex(&buf), img_ok));
+        reqs.push(format!("c01.inline {} {} {}", inline_search(), hex(&buf), img_ok));
     }
     run.compare(&mut st, reqs);
     st
